@@ -112,8 +112,7 @@ Qed.
 
 (* ---------------------------------------------------------------- the limit check *)
 (* assembly.go:723-724, evaluated when a packet of n pages has just been buffered *)
-Definition limit_cond (mp mt pg used n : Z) : bool :=
-  ((mp >? 0) && (pg + n >=? mp)) || ((mt >? 0) && (used + n >=? mt)).
+Definition limit_cond (mp mt pg used n : Z) : bool := limit_now mp mt (pg + n) (used + n).
 
 (* does a page limit fire in this step (provided the segment is buffered at all) *)
 Definition limit_fires (st : state) (o : op) : bool :=
@@ -125,7 +124,7 @@ Definition limit_fires (st : state) (o : op) : bool :=
   end.
 
 Lemma limit_cond_off mp mt pg used n : mp <= 0 -> mt <= 0 -> limit_cond mp mt pg used n = false.
-Proof. intros. unfold limit_cond. lia. Qed.
+Proof. intros. unfold limit_cond, limit_now. lia. Qed.
 
 (* ---------------------------------------------------------------- the stream invariant *)
 Section Stream.
@@ -447,20 +446,21 @@ Lemma conn_ok_pre c pos : conn_ok c pos -> conn_pre c pos.
 Proof. intros [H _]; exact H. Qed.
 
 (* ---- addNextFromConn on a non-empty queue *)
-Lemma add_next_spec c pos lo used p rest :
-  conn_pre c pos -> conn_win lo c pos -> c_queue c = p :: rest ->
-  exists a' r w1, add_next (mkW c used []) = Ok w1 /\ w_ret w1 = [r] /\ chunk pos r (Some a') /\
-    conn_pre (w_c w1) (Some a') /\ conn_win lo (w_c w1) (Some a') /\ c_queue (w_c w1) = rest.
+Lemma add_next_spec w pos lo p rest :
+  conn_pre (w_c w) pos -> conn_win lo (w_c w) pos -> c_queue (w_c w) = p :: rest ->
+  exists a' r w1, add_next w = Ok w1 /\ w_ret w1 = w_ret w ++ [r] /\ chunk pos r (Some a') /\
+    conn_pre (w_c w1) (Some a') /\ conn_win lo (w_c w1) (Some a') /\ c_queue (w_c w1) = rest /\
+    c_pages (w_c w1) = c_pages (w_c w) - 1 /\ w_used w1 = w_used w - 1.
 Proof.
-  intros (Hns & Hpos & Hg & Hq) [Hwa Hwq] Hqe. destruct c as [pg q ns ls gp].
-  cbn [c_nextSeq c_queue c_pos] in *. subst q ns.
+  intros (Hns & Hpos & Hg & Hq) [Hwa Hwq] Hqe. destruct w as [[pg q ns ls gp] used ret].
+  cbn [w_c w_ret w_used c_nextSeq c_queue c_pos c_pages] in *. subst q ns.
   inversion Hq as [|x y Hp Hr]; subst. inversion Hwq as [|x y Hwp Hwr]; subst.
   destruct (pop_page_spec p pos lo Hp Hpos Hwp Hwa) as (Hc & Hn & Ha' & Hw' & _).
   unfold add_next. cbn [w_c c_queue c_nextSeq c_pages c_lastSeen c_pos w_used w_ret].
   rewrite (pop_gpos_after pos gp p Hg).
   destruct (pop_page (enc pos) p) as [r nx]. cbn [fst snd] in *. subst nx.
-  exists (pos_after pos p), r. eexists. split; [reflexivity|]. cbn [w_ret w_c c_queue c_nextSeq c_pos app].
-  split; [reflexivity|]. split; [exact Hc|]. split; [|split; [|reflexivity]].
+  exists (pos_after pos p), r. eexists. split; [reflexivity|]. cbn [w_ret w_used w_c c_queue c_nextSeq c_pos c_pages app].
+  split; [reflexivity|]. split; [exact Hc|]. split; [|split; [|split; [reflexivity|split; reflexivity]]].
   - split; [reflexivity|]. split; [cbn; lia|]. split; [|exact Hr]. intros ? [= <-]; reflexivity.
   - split; [|exact Hwr]. intros ? [= <-]; exact Hw'.
 Qed.
@@ -477,8 +477,8 @@ Proof.
   intros Hok Hwin Hcs. unfold skip_flush. destruct (c_queue c) as [|p rest] eqn:EQ.
   - eexists. split; [reflexivity|]. split; [|exact I].
     exists pos. cbn [close_connection rs_calls rs_conn rs_done]. split; [exact Hcs|reflexivity].
-  - destruct (add_next_spec c pos lo used p rest (conn_ok_pre _ _ Hok) Hwin EQ)
-      as (a1 & r & w1 & Hadd & Hret & Hch & Hpre & Hwin1 & Hq1).
+  - destruct (add_next_spec (mkW c used []) pos lo p rest (conn_ok_pre _ _ Hok) Hwin EQ)
+      as (a1 & r & w1 & Hadd & Hret & Hch & Hpre & Hwin1 & Hq1 & _). cbn [w_ret app] in Hret.
     rewrite Hadd. cbn [obind].
     destruct (add_contiguous_spec w1 a1 lo Hpre Hwin1) as (a2 & rs & Hret2 & Hcs2 & Hok2 & Hwin2 & _ & _ & Hlen2).
     set (w2 := add_contiguous w1) in *.
@@ -495,14 +495,40 @@ Qed.
 Lemma page_seq_nonneg p : page_ok p -> 0 <= p_seq p.
 Proof. intros (_ & _ & Hs & _). rewrite Hs. apply sq_range. Qed.
 
+(* the limit loop: pops pages while the limit holds; within its fuel *)
+Lemma limit_loop_spec lo mp mt p0 fuel : forall w pos,
+  conn_pre (w_c w) pos -> conn_win lo (w_c w) pos -> chunks p0 (w_ret w) pos ->
+  (length (c_queue (w_c w)) <= fuel)%nat ->
+  exists w1, limit_loop fuel mp mt w = Ok w1 /\
+    (w1 = w \/
+     exists a', w_ret w1 <> [] /\ chunks p0 (w_ret w1) (Some a') /\ conn_pre (w_c w1) (Some a') /\
+                conn_win lo (w_c w1) (Some a')).
+Proof.
+  induction fuel as [|f IH]; intros w pos Hpre Hwin Hcs Hlen.
+  - destruct (c_queue (w_c w)) eqn:EQ; [|cbn [length] in Hlen; lia].
+    exists w. cbn [limit_loop]. rewrite EQ. split; [reflexivity|left; reflexivity].
+  - cbn [limit_loop]. destruct (c_queue (w_c w)) as [|p rest] eqn:EQ.
+    + exists w. split; [reflexivity|left; reflexivity].
+    + destruct (limit_now mp mt (c_pages (w_c w)) (w_used w)); [|exists w; split; [reflexivity|left; reflexivity]].
+      destruct (add_next_spec w pos lo p rest Hpre Hwin EQ) as (a1 & r & w1 & Hadd & Hret & Hch & Hpre1 & Hwin1 & Hq1 & _).
+      rewrite Hadd. cbn [obind].
+      assert (Hcs1 : chunks p0 (w_ret w1) (Some a1)).
+      { rewrite Hret. eapply chunks_app; [exact Hcs|apply chunks_one; exact Hch]. }
+      destruct (IH w1 (Some a1) Hpre1 Hwin1 Hcs1) as (w2 & Hl & Hcase).
+      { rewrite Hq1. cbn [length] in Hlen. lia. }
+      exists w2. split; [exact Hl|]. right.
+      destruct Hcase as [->|Hc]; [|exact Hc].
+      exists a1. split; [rewrite Hret; destruct (w_ret w); discriminate|]. split; [exact Hcs1|split; assumption].
+Qed.
+
 Lemma insert_spec maxPer maxTotal c pos lo used o n e ts :
   conn_ok c pos -> conn_win lo c pos -> 0 <= o -> 0 <= n -> o + n <= lenZ S ->
   inw lo o -> inw lo (o + n) ->
   (forall a, pos = Some a -> difference (sq i a) (sq i o) > 0) ->
   exists w1, insert_into_conn maxPer maxTotal (sq i o) (sub S o n) e ts o (mkW c used []) = Ok w1 /\
     ((w_ret w1 = [] /\ conn_ok (w_c w1) pos /\ conn_win lo (w_c w1) pos) \/
-     (exists r a', w_ret w1 = [r] /\ chunk pos r (Some a') /\ conn_pre (w_c w1) (Some a') /\
-                   conn_win lo (w_c w1) (Some a'))) /\
+     (exists a', w_ret w1 <> [] /\ chunks pos (w_ret w1) (Some a') /\ conn_pre (w_c w1) (Some a') /\
+                 conn_win lo (w_c w1) (Some a'))) /\
     (limit_cond maxPer maxTotal (c_pages c) used (lenZ (pages_from_tcp (sq i o) (sub S o n) e ts o)) = false ->
      w_ret w1 = []).
 Proof.
@@ -537,16 +563,19 @@ Proof.
   set (c1 := mkC (pg + lenZ ps) (qa ++ ps ++ qb) (enc pos) ls gp).
   assert (Hc1 : conn_ok c1 pos) by (repeat split; assumption).
   assert (Hw1 : conn_win lo c1 pos) by (split; assumption).
-  destruct (((maxPer >? 0) && (pg + lenZ ps >=? maxPer)) || ((maxTotal >? 0) && (used + lenZ ps >=? maxTotal))) eqn:EL.
-  - assert (exists p1 r1, qa ++ ps ++ qb = p1 :: r1) as (p1 & r1 & Eq1).
-    { destruct qa as [|x qa']; cbn [app]; [rewrite Eps; cbn [app]|]; eexists; eexists; reflexivity. }
-    destruct (add_next_spec c1 pos lo (used + lenZ ps) p1 r1 (conn_ok_pre _ _ Hc1) Hw1 Eq1)
-      as (a' & r & w1 & Hadd & Hret & Hch & Hpre & Hwin' & _).
-    exists w1. split; [exact Hadd|]. split.
-    + right. exists r, a'. split; [|split; [|split]]; assumption.
-    + intros H1. exfalso. unfold limit_cond in H1. cbn [c_pages] in H1. fold ps in H1. congruence.
-  - eexists. split; [reflexivity|]. cbn [w_ret w_c].
-    split; [left; split; [reflexivity|split; [exact Hc1|exact Hw1]]|reflexivity].
+  set (w0 := mkW c1 (used + lenZ ps) []).
+  destruct (limit_loop_spec lo maxPer maxTotal pos (length (qa ++ ps ++ qb)) w0 pos
+              (conn_ok_pre _ _ Hc1) Hw1) as (w1 & Hl & Hcase).
+  { constructor. }
+  { cbn [w0 w_c c1 c_queue]. lia. }
+  exists w1. split; [exact Hl|]. split.
+  - destruct Hcase as [->|Hc]; [left; split; [reflexivity|split; [exact Hc1|exact Hw1]]|right; exact Hc].
+  - intros HL. unfold limit_cond in HL. cbn [c_pages] in HL.
+    assert (w1 = w0) as ->; [|reflexivity].
+    destruct (qa ++ ps ++ qb) as [|px qx] eqn:EQ.
+    + cbn [length limit_loop] in Hl. subst w0 c1. cbn [w_c c_queue] in Hl. congruence.
+    + cbn [length limit_loop] in Hl. subst w0 c1. cbn [w_c c_queue c_pages w_used] in Hl.
+      rewrite HL in Hl. congruence.
 Qed.
 
 (* ---- consistent operations: every segment carries bytes of S at its (ghost) offset; the
@@ -665,8 +694,7 @@ Proof.
       { intros a0 [= <-]. rewrite diff_sq by (unfold quarter in *; lia). lia. }
       rewrite Hins.
       destruct (finish_spec st isnew (Some a) lo w1) as [H1 H2].
-      { destruct Hcases as [Hc|(r & a' & Hr & Hch & Hpre & Hw')]; [left; exact Hc|].
-        right. exists a'. rewrite Hr. split; [discriminate|split; [apply chunks_one; exact Hch|split; assumption]]. }
+      { destruct Hcases as [Hc|Hc]; [left; exact Hc|right; exact Hc]. }
       split; [exact H1|]. intros L. apply H2. rewrite (Hnolim L). constructor.
     + (* at or before the position: delivered now *)
       destruct (fast_chunk a o n (rst || fin) ts
@@ -701,8 +729,7 @@ Proof.
       { intros a0 [=]. }
       rewrite Hins.
       destruct (finish_spec st isnew None lo w1) as [H1 H2].
-      { destruct Hcases as [Hc|(r & a' & Hr & Hch & Hpre & Hw')]; [left; exact Hc|].
-        right. exists a'. rewrite Hr. split; [discriminate|split; [apply chunks_one; exact Hch|split; assumption]]. }
+      { destruct Hcases as [Hc|Hc]; [left; exact Hc|right; exact Hc]. }
       split; [exact H1|]. intros L. apply H2. rewrite (Hnolim L). constructor.
 Qed.
 
